@@ -1,6 +1,9 @@
 package drive
 
-import "time"
+import (
+	"strings"
+	"time"
+)
 
 func ageCut() time.Time { return time.Now().Add(-30 * time.Minute) }
 
@@ -13,6 +16,12 @@ func r2(t1 string, v1 int64, t2 string, v2 int64) map[string]int64 {
 // operation sequences carry their configuration inline instead.
 func NamedConf(name string) *Conf {
 	var c *Conf
+	// "<name>Case": the same configuration with queue names spelled with a capital first letter in the YAML
+	if strings.HasSuffix(name, "Case") {
+		c = NamedConf(strings.TrimSuffix(name, "Case"))
+		c.Name, c.MixedCase = name, true
+		return c
+	}
 	switch name {
 	case "base":
 		c = &Conf{Valid: true, Queues: []QConf{
@@ -78,6 +87,16 @@ func NamedConf(name string) *Conf {
 			{Path: "root.r", Parent: true},
 			{Path: "root.r.s", Guar: r1("memory", 2)},
 			{Path: "root.r.t", Props: map[string]string{"preemption.policy": "disabled"}},
+		}}
+	case "pre3": // askers below negative priority offsets, victims behind priority fences with positive offsets
+		c = &Conf{Valid: true, Preemption: true, Queues: []QConf{
+			{Path: "root.p", Parent: true, Guar: r1("memory", 6)},
+			{Path: "root.p.x", Guar: r1("memory", 3), Props: map[string]string{"priority.offset": "-2"}},
+			{Path: "root.p.y", Guar: r1("memory", 2), Props: map[string]string{"priority.offset": "-1"}},
+			{Path: "root.q", Props: map[string]string{"priority.policy": "fence", "priority.offset": "1"}},
+			{Path: "root.r", Parent: true, Props: map[string]string{"priority.policy": "fence", "priority.offset": "2"}},
+			{Path: "root.r.s"},
+			{Path: "root.r.t", Props: map[string]string{"priority.offset": "-1"}},
 		}}
 	case "quota":
 		c = &Conf{Valid: true, Preemption: true, QuotaPreempt: true, Queues: []QConf{
